@@ -25,10 +25,13 @@ for sid in sorted(d for d in os.listdir(os.path.join(ROOT, "seeded")) if os.path
         how = r[p].get("detail", "").replace("violated:", "").strip()[:110].replace("|", "/")
     n += 1
     n_det += bool(caught)
+    n_own = globals().get("n_own", 0) + (m.get("property") in caught)
+    globals()["n_own"] = n_own
     rows.append(f"| {sid} | {m.get('summary', '')[:150].replace('|', '/')} | {m.get('needs', '')[:130].replace('|', '/')} | {first_cell(sid, m.get('property'))} | "
                 f"{', '.join(caught) if caught else ('undecided (exit 2): ' + ', '.join(und) if und else '**missed**')} | {how} |")
 rows.append("")
-rows.append(f"{n_det} of {n} seeded changes are caught by the quick check of the property they were written for.")
+rows.append(f"{globals().get('n_own', 0)} of {n} seeded changes are caught by the quick check of the property they were written for, "
+            f"{n_det} of {n} by some registered quick check (C07-3 is reported by C03's check).")
 p = os.path.join(ROOT, "DESIGN.md")
 s = open(p).read()
 s = re.sub(r"<!-- SEEDED-TABLE-BEGIN -->.*<!-- SEEDED-TABLE-END -->", "<!-- SEEDED-TABLE-BEGIN -->\n" + "\n".join(rows) + "\n<!-- SEEDED-TABLE-END -->", s, flags=re.S)
